@@ -21,6 +21,7 @@ RULE = (
     "*_eff_value).  non-trivial = non-uniform weights or a batch that does not divide n; distinct = (model, weight kind, "
     "card key, batch set)."
 )
+RULE += '  Also: simultaneous fits with the background weight / fraction given once for all data sets or per data set.'
 ASSUMPTIONS = [
     "reference densities are the library's own per-event densities from one un-batched eager call (the amplitude is C01-C05's business)",
     "cases whose smallest logged argument is below 1e-5 are skipped (the library continues ln x by a parabola below 1e-6: clip_log)",
